@@ -25,7 +25,9 @@ def bkg_make(cfg):
     if cfg['excluded']:
         mask = np.zeros(data.shape, dtype=bool)
         mask[0:6, 0:6] = True          # one box completely masked -> NaN mesh, filled by IDW
-    thr = {'none': None, 'below_min': 1.0, 'selective': 13.5}[cfg['thr']]
+    thr = {'none': None, 'below_min': 1.0, 'selective': 13.5, 'selective_zero': 0.0}[cfg['thr']]
+    if cfg['thr'] == 'selective_zero':
+        data = data - 13.5          # background-subtracted data: some meshes are <= 0, and the threshold 0.0 is falsy
     interp = BkgZoomInterpolator() if cfg['interp'] == 'zoom' else BkgIDWInterpolator()
     return Background2D(data, 6, mask=mask, filter_size=cfg['filter_size'], filter_threshold=thr, interpolator=interp,
                         bkg_estimator=MedianBackground(), exclude_percentile=(10.0 if cfg['excluded'] else 100.0))
